@@ -28,8 +28,11 @@ def run(tier, seed):
     progs = runner.compile_programs(items, want=('machine', 'codegen'))
     pairs = [(p, a) for p, a in zip(progs, asts) if p.ok and 'wait' in p.src]
     st, kinds, cases = c01.run_conform(chk, pairs, 9 if quick else 13, 400 if quick else 3000, 'wait')
+    from props import c06
+    cs = c06.c_stage(chk, [p for p, a in pairs][::4 if quick else 2], rng, 2, 'wait program')
     chk.coverage = {
-        'states': st['states'], 'transitions': st['transitions'], 'traces_validated_against_impl': len(pairs),
+        'states': st['states'] + cs['states'], 'transitions': st['transitions'] + cs['transitions'], 'traces_validated_against_impl': len(pairs) + cs['accepted'],
+        'c_stage': cs,
         'samples': [{'source': c['p'].src, 'args': c['p'].args, 'symbols': c['syms']} for c in cases[:2]],
         'programs_accepted': len(pairs), 'programs_generated': len(items), 'report_kinds': dict(kinds), 'exhaustive': False,
         'rule': 'wait patterns: literal, case-insensitive, regex with loops, concatenation; bare / in try / in loop / under foreach; all symbol cells and end-of-input',
